@@ -48,6 +48,29 @@ type View struct {
 	Data string `json:"data"`
 }
 
+// IsControl reports whether the case is one of the deterministic controls every run
+// submits at every entry point whatever the seed: a certainly well-formed input (valid
+// encoding, valid query, valid control message, request without views) or a certainly
+// malformed one (three bytes of roaring data, ")", a one-byte message body, a
+// zero-length view). The vacuity guard of checks/c06.py looks at these only.
+func (c *Case) IsControl() bool {
+	switch c.Fam {
+	case "roaring":
+		return len(c.Cors) == 0 ||
+			(len(c.Cors) == 1 && c.Cors[0] == Cor{Kind: "trunc", Sec: "abs", Idx: 3, Val: "at"})
+	case "pql":
+		if c.NestKind != "" {
+			return c.Nest == 1 && (c.NestKind == "balanced" || c.NestKind == "overclosed")
+		}
+		return len(c.Toks) == 1 && (c.Toks[0] == "SETCALL" || c.Toks[0] == "RP")
+	case "msg":
+		return (c.MBody == "valid") || (c.MBody == "onebyte" && c.MType == 0)
+	case "env":
+		return len(c.Views) == 0 || (len(c.Views) == 1 && c.Views[0].Data == "zero")
+	}
+	return false
+}
+
 // CorKind is the matcher field "cor": kind/sec of every corruption, sorted, joined by '+'.
 func (c *Case) CorKind() string {
 	switch c.Fam {
